@@ -92,6 +92,20 @@ class HostileObj:
         return self.n      # (not a fault site: the harness itself puts these objects into dicts)
 
 
+class HashBomb:
+    """A value (never a key the harness itself builds) whose __hash__ is a hook fault site."""
+
+    def __hash__(self):
+        faults.hook_point("obj.__hash__")
+        return 7
+
+    def __eq__(self, other):
+        return self is other
+
+    def __repr__(self):
+        return "<HashBomb>"
+
+
 class HostileObj2(HostileObj):
     """... and the operators a constraint validator applies to the value."""
     __slots__ = ()
@@ -336,7 +350,7 @@ def generate(rng, tier):
             plan["dup"] = {"al_" + f["name"]: {"$ho": 2}}
         if api in ("schema", "dataclass") and rng.random() < 0.12:
             fields.append({"name": "dsc", "type": ["disc"]})
-            inp["dsc"] = rng.choice([{"kind": "a"}, {"kind": {"$unhashable": 1}}, {"kind": {"$ho": 3}}, {"kind": "zz"}, 5,
+            inp["dsc"] = rng.choice([{"kind": "a"}, {"kind": {"$unhashable": 1}}, {"kind": {"$ho": 3}}, {"kind": "zz"}, 5, {"kind": {"$hb": 1}}, {"kind": {"$hb": 1}},
                                      {"$fl": [["kind", "a"]]}, {"$fl": [["kind", "a"]]}, {"$fl": [["kind", "b"]]}, {"$conho": ["olen", 7]},
                                      {"$con": ["olen", N_HOSTILE - rng.choice([1, 2, 3, 4])]}])
         plan["fields"] = fields
@@ -391,6 +405,8 @@ def generate(rng, tier):
     if '"$ho"' in kernel.jdump([plan["input"], plan.get("dup")]):
         for _ in range(rng.choice([1, 2])):
             hooks.setdefault(rng.choice(["obj.__ne__", "obj.__eq__", "obj.__str__", "obj.__repr__"]), {})[str(rng.choice([1, 1, 2]))] = rng.choice(faults.EXC_NAMES)
+    if '"$hb"' in kernel.jdump(plan["input"]):
+        hooks.setdefault("obj.__hash__", {})[str(rng.choice([1, 1, 2]))] = rng.choice(faults.EXC_NAMES)
     if '"$conho"' in kernel.jdump(plan["input"]):
         for _ in range(rng.choice([1, 1, 2])):
             hooks.setdefault(rng.choice(["obj.__len__", "obj.__cmp__", "obj.__mod__", "obj.__ne__", "obj.__eq__", "obj.__str__", "obj.__iter__"]), {})[str(rng.choice([1, 1, 2]))] = rng.choice(faults.EXC_NAMES)
@@ -505,6 +521,8 @@ def build_value(v, hostile):
             return HostileObj(v["$ho"])
         if "$unhashable" in v:
             return []
+        if "$hb" in v:
+            return HashBomb() if hostile else "a"
         if "$conho" in v:
             return HostileObj2(v["$conho"][1]) if hostile else copy.copy(CON[v["$conho"][0]][2])
         if "$con" in v:
@@ -799,7 +817,7 @@ def _control_may_reject(plan):
     s = kernel.jdump(plan.get("type") or [f["type"] for f in plan["fields"]])
     v = kernel.jdump([plan["input"], plan.get("dup")])
     # arbitrary objects in the place of payloads, an unhashable or unknown discriminator: rejected without any fault too
-    return '"ftup"' in s or '"$ho"' in v or '"$unhashable"' in v or '"disc"' in s
+    return '"ftup"' in s or '"$ho"' in v or '"$unhashable"' in v or '"disc"' in s or '"$hb"' in v
 
 
 def _hostile_idx(v):
@@ -827,7 +845,7 @@ def _innermost(plan):
 
     def _walk(t, v, holder):
         k = t[0]
-        if isinstance(v, dict) and ("$ho" in v or "$unhashable" in v):
+        if isinstance(v, dict) and ("$ho" in v or "$unhashable" in v or "$hb" in v):
             kinds.add("hostile_obj")
             return
         if isinstance(v, dict) and ("$con" in v or "$conho" in v):
